@@ -22,3 +22,16 @@ func TestMain(m *testing.M) {
 
 func TestC13(t *testing.T) { rapid.Check(t, runC13) }
 func TestC14(t *testing.T) { rapid.Check(t, runC14) }
+
+var rejectedByNew int
+
+// newRejected: a generated table that New refuses is skipped (the round-trip
+// properties speak about frames that exist); if that becomes common the
+// generator is broken and the engine says so instead of going quiet.
+func newRejected(t *rapid.T, err error) {
+	rejectedByNew++
+	core.Probe("generated-frame-rejected-by-New")
+	if rejectedByNew > 300 && int64(rejectedByNew)*50 > core.S.Evaluations {
+		t.Fatalf("harness: New rejects %d of %d generated frames: %v", rejectedByNew, core.S.Evaluations, err)
+	}
+}
